@@ -327,21 +327,27 @@ func c06Observe(e Ev, pmt psi.PMT, err error) {
 	if err != nil || pmt == nil {
 		return
 	}
-	ss := []Ev{}
-	for _, es := range pmt.ElementaryStreams() {
-		ds := []Ev{}
-		for _, d := range es.Descriptors() {
-			ds = append(ds, Ev{"tag": int(d.Tag()), "body": B(descBody(d))})
+	inOrder(e, func() {
+		ss := []Ev{}
+		for _, es := range pmt.ElementaryStreams() {
+			var one Ev = Ev{}
+			inOrder(e, func() {
+				ds := []Ev{}
+				for _, d := range es.Descriptors() {
+					ds = append(ds, Ev{"tag": int(d.Tag()), "body": B(descBody(d))})
+				}
+				one["descs"] = ds
+			}, func() { one["type"] = int(es.StreamType()) }, func() { one["pid"] = es.ElementaryPid() })
+			ss = append(ss, one)
 		}
-		ss = append(ss, Ev{"type": int(es.StreamType()), "pid": es.ElementaryPid(), "descs": ds})
-	}
-	e["streams"] = ss
-	pids := []int{}
-	for _, p := range pmt.Pids() {
-		pids = append(pids, p)
-	}
-	e["pids"] = pids
-	e["version"], e["cni"] = int(pmt.VersionNumber()), pmt.CurrentNextIndicator()
+		e["streams"] = ss
+	}, func() {
+		pids := []int{}
+		for _, p := range pmt.Pids() {
+			pids = append(pids, p)
+		}
+		e["pids"] = pids
+	}, func() { e["version"] = int(pmt.VersionNumber()) }, func() { e["cni"] = pmt.CurrentNextIndicator() })
 }
 
 func c06Snapshot(pmt psi.PMT) string {
@@ -398,7 +404,9 @@ func (c06) Exec(h []Ev) []Ev {
 				for _, p := range evPkts(e["packets"]) {
 					buf.Write(p[:])
 				}
-				pmt, err := psi.ReadPMT(&buf, GI(e["pid"]))
+				// the way the stream is handed over (buffer, buffered readers, one byte at a time, random pieces, data
+				// together with EOF) is a function of the event
+				pmt, err := psi.ReadPMT(c07Reader(c07Readers[(buf.Len()/188*7+GI(e["pid"]))%len(c07Readers)], buf.Bytes()), GI(e["pid"]))
 				c06Observe(e, pmt, err)
 				defer hold(pmt, err)
 			case "th":
